@@ -171,3 +171,7 @@ Definition hyps_strict (R : registry) (ws : list N) (v : val) : bool :=
 (* code: 0 = outside C05_roundtrip_partial, 1 = its hypotheses hold, 2 = those of C05_roundtrip_same_object too *)
 Definition hyp_level (R : registry) (ws : list N) (v : val) : nat :=
   if hyps_strict R ws v then 2%nat else if hyps R ws v then 1%nat else 0%nat.
+
+(* the model's base64 against the real library: bytes, base64.b64encode(bytes) *)
+Definition b64_case (c : bytes * str) : bool :=
+  str_eqb (b64enc (fst c)) (snd c) && opt_eqb str_eqb (b64dec (snd c)) (Some (fst c)).
